@@ -44,6 +44,7 @@ import Rl.Lemmas.RenderLogBd
 import Rl.Lemmas.RenderLogBdTop
 import Rl.Lemmas.PopUndoWF
 import Rl.Lemmas.RenderLogAlpha
+import Rl.Lemmas.AlphaLM
 import Rl.Lemmas.CharSearch
 import Rl.Lemmas.EditorNextRet
 import Rl.Lemmas.LBFaithful
@@ -814,3 +815,26 @@ theorem C02_editor_shows_alpha (S : Segmenter) (U : UData) (cfg : EdCfg) (ring :
     text without control characters is of the quantified kind -/
 example : AlphaPlain C02_cexSeg C02_exR (fun c => !isC0Control c) :=
   fun t ht => C02_exPlain t (fun c hc => by simpa using ht c hc)
+
+/-- **The line buffer stays inside the alphabet** (`Rl/Lemmas/AlphaLM.lean`, first stage of "inputs over `A` ⇒
+    `LogAlpha`"): from a buffer written over `A`, whenever the operation returns, the new buffer is over `A`, and so
+    is every text it answers and every text it notifies (what reaches the undo log and the kill ring) — for the
+    insertions (given a character / text over `A`), every kill, the transpositions (which re-insert buffer text),
+    `yank_pop`, `update` and `replace`.  Also proved there: every cursor motion, `delete`, `backspace`, the word and
+    line kills, `delete_range`, `drain_around`, `set_pos` (31 operations; by the structural tactic `aop`).  Not
+    covered: `edit_word` (needs `U.upper` / `U.lower` to stay inside `A`), `indent` (needs the blank in `A`), the undo
+    log's replay, and the editor-level pass (`AlphaI` through the primitives, `execute`, the loops) with the
+    hypotheses on the decoded keys, history, candidates and hints — `LogAlpha` stays a hypothesis on the produced
+    log. -/
+theorem C02_alpha_ops (S : Segmenter) (U : UData) (A : Char → Bool) :
+    (∀ ch n, A ch = true → AOp A (LB.insert S U ch n)) ∧
+    (∀ i t, OverA A t → AOp A (LB.insertStr S U i t)) ∧
+    (∀ t n, OverA A t → AOp A (LB.yank S U t n)) ∧
+    (∀ k t, OverA A t → AOp A (LB.yankPop S U k t)) ∧
+    (∀ m, AOp A (LB.kill S U m)) ∧
+    AOp A (LB.transposeChars S U) ∧ (∀ n, AOp A (LB.transposeWords S U n)) ∧
+    (∀ t p, OverA A t → AOp A (LB.update S U t p)) ∧
+    (∀ a b t, OverA A t → AOp A (LB.replace S U a b t)) :=
+  ⟨fun _ n h => aop_insert h n, fun i _ h => AOp.insertStr S U i h, fun _ n h => aop_yank h n,
+   fun k t h => aop_yankPop k t h, fun m => aop_kill m, aop_transposeChars, fun n => aop_transposeWords n,
+   fun t p h => aop_update t p h, fun a b _ h => AOp.replace S U a b h⟩
